@@ -39,6 +39,9 @@ def rand_desc(rnd, multiline=True):
     lines = []
     for i in range(n):
         l = " ".join(rnd.choice(WORDS) for _ in range(rnd.randint(1, 3)))
+        if rnd.random() < 0.08:
+            # a long line, sometimes one unbroken run of more than 80 characters (a URL, a path)
+            l = rnd.choice(["https://example.org/" + "a-very-long-path-segment/" * 5 + "end", " ".join(rnd.choice(WORDS) for _ in range(30))])
         if i > 0 and rnd.random() < 0.4:
             l = "  " + l            # inner lines are trimmed by the row printer
         if i < n - 1 and rnd.random() < 0.3:
@@ -87,7 +90,7 @@ def rand_tree(rnd, depth):
     def mk(names, d):
         idx = len(nodes)
         used = set()
-        n = {"names": names, "desc": rand_desc(rnd, False).replace("\n", " "), "longdesc": rnd.choice(["", "", rand_desc(rnd)]), "hidden": False,
+        n = {"names": names, "desc": "\n".join(x.lstrip() if k else x for k, x in enumerate(rand_desc(rnd, rnd.random() < 0.3).split("\n"))), "longdesc": rnd.choice(["", "", rand_desc(rnd)]), "hidden": False,
              "spec": "", "opts": [], "args": [], "subs": []}
         nodes.append(n)
         for _ in range(rnd.choice([0, 1, 2, 3])):
@@ -164,15 +167,28 @@ def parse_help(text):
     if not hdr:
         return doc
     W = len(rest[first])
+    sec = ""
     for l in rest[first:]:
         if l.strip() == "":
             continue
         if l.rstrip() in ("Arguments:", "Options:", "Commands:"):
+            sec = l.rstrip()
             doc.append({"k": "section", "a": l.rstrip(), "b": ""})
         elif l.startswith("Run '") and l.endswith(" COMMAND --help' for more information on a command."):
             doc.append({"k": "footer", "a": l[len("Run '"):-len(" COMMAND --help' for more information on a command.")], "b": ""})
+        elif l.startswith("  ") and sec == "Commands:":
+            # (a multi-line description ends the column block: the rows behind it are aligned on their own, so the column is found
+            # by the gap of at least three blanks behind the alias list, not by the width of the first block)
+            m = re.match(r"^  (.*?\S) {3,}(\S.*)$", l)
+            if m:
+                doc.append({"k": "row", "a": m.group(1), "b": m.group(2)})
+            else:
+                doc.append({"k": "row", "a": l.strip(), "b": ""})
         elif l.startswith("  "):
             doc.append({"k": "row", "a": l[2:W].rstrip(), "b": l[W:]})
+        elif sec == "Commands:" and doc and doc[-1]["k"] == "row":
+            # the further lines of a sub command's description are printed as they are, outside the column
+            doc[-1]["b"] += "\n" + l
         else:
             doc.append({"k": "junk", "a": l, "b": ""})
     return doc
